@@ -85,4 +85,16 @@ verus! {
 pub fn vx_opt_ref_eq<T: PartialEq>(o: &Option<T>, r: &T) -> (b: bool)
     ensures b == (*o == Some(*r))
 { o.as_ref() == Some(r) }
+
+// Vec::dedup: consecutive equal elements collapse to the first of the run
+pub open spec fn spec_dedup<T>(s: Seq<T>) -> Seq<T>
+    decreases s.len()
+{
+    if s.len() <= 1 { s } else {
+        let d = spec_dedup(s.drop_last());
+        if s.last() == s[s.len() - 2] { d } else { d.push(s.last()) }
+    }
+}
+pub assume_specification<T: core::cmp::PartialEq, A: core::alloc::Allocator>[ Vec::<T, A>::dedup ](v: &mut Vec<T, A>)
+    ensures final(v)@ == spec_dedup(old(v)@);
 } // verus!
